@@ -97,6 +97,9 @@ class SymCtx(Ctx):
     def rng(self, stream="R"):
         return symlibs.Generator(stream)
 
+    def replay_rng(self, g, prefix):
+        return g.replayer(prefix, backend=_ShimBackend())
+
     def assume(self, cond, text=None):
         self.eng.assume(cond, text)
 
@@ -291,6 +294,9 @@ class RealCtx(ConcreteCtx):
     def rng(self, stream="R"):
         return symlibs.Generator(stream, backend=self.np, source=self.values)
 
+    def replay_rng(self, g, prefix):
+        return g.replayer(prefix, backend=self.np)
+
     def tmp(self, name):
         if self._tmpdir is None:
             self._tmpdir = tempfile.mkdtemp(prefix="bverif_replay_")
@@ -336,6 +342,9 @@ class ShimCtx(ConcreteCtx):
 
     def global_rng(self):
         return _NullCtx(self.L.np_random._global)
+
+    def replay_rng(self, g, prefix):
+        return g.replayer(prefix, backend=_ShimBackend())
 
     def cleanup(self):
         symnp.CONCRETE_MATH = False
